@@ -55,6 +55,7 @@ type reqWorld struct {
 	resp    []*actor.PID
 	handled []int
 	cblog   [][2]any
+	maxf    int
 	owner   atomic.Uint64 // goroutine that holds the requester's turn (0 none)
 	enter   chan *reqHeld
 	free    atomic.Bool
@@ -118,11 +119,14 @@ func (r requester) Receive(ctx *actor.ReceiveContext) {
 		rq := x.nreq + 1
 		to := x.resp[rq-1]
 		x.mu.Unlock()
-		mode := reentrancy.AllowAll
-		if c.Mode == "stash" {
-			mode = reentrancy.StashNonReentrant
+		var opts []actor.RequestOption
+		switch c.Mode {
+		case "stash":
+			opts = append(opts, actor.WithReentrancyMode(reentrancy.StashNonReentrant))
+		case "default": // no per-call override: the actor's default policy decides
+		default:
+			opts = append(opts, actor.WithReentrancyMode(reentrancy.AllowAll))
 		}
-		opts := []actor.RequestOption{actor.WithReentrancyMode(mode)}
 		if c.Tmo {
 			opts = append(opts, actor.WithRequestTimeout(time.Microsecond))
 		}
@@ -136,10 +140,16 @@ func (r requester) Receive(ctx *actor.ReceiveContext) {
 			what := "error"
 			if err := actor.VerifContextErr(ctx); errors.Is(err, gerrors.ErrReentrancyInFlightLimit) {
 				what = "limit"
+			} else if errors.Is(err, gerrors.ErrReentrancyDisabled) {
+				what = "disabled"
 			} else if err != nil {
 				what = "error:" + err.Error()
 			}
-			x.w.Emit(map[string]any{"ev": "reqcall", "id": c.ID, "rq": 0, "what": what, "n": 0, "m": 0})
+			mm := 0
+			if c.Mode == "default" {
+				mm = 2
+			}
+			x.w.Emit(map[string]any{"ev": "reqcall", "id": c.ID, "rq": 0, "what": what, "n": 0, "m": mm})
 			ctx.Err(nil) // the refusal has been dealt with here: do not escalate it to the supervisor
 			break
 		}
@@ -150,6 +160,8 @@ func (r requester) Receive(ctx *actor.ReceiveContext) {
 		m := 0
 		if c.Mode == "stash" {
 			m = 1
+		} else if c.Mode == "default" {
+			m = 2
 		}
 		th := 0
 		if c.Th == "now" {
@@ -159,6 +171,12 @@ func (r requester) Receive(ctx *actor.ReceiveContext) {
 		if c.Th == "now" {
 			call.Then(x.callback(rq))
 		}
+	case "disable":
+		ctx.DisableReentrancy()
+		x.w.Emit(map[string]any{"ev": "disable", "id": c.ID, "rq": 0, "what": "", "n": 0, "m": 0})
+	case "enable":
+		err := ctx.EnableReentrancy(reentrancy.New(reentrancy.WithMode(reentrancy.AllowAll), reentrancy.WithMaxInFlight(x.maxf)))
+		x.w.Emit(map[string]any{"ev": "enable", "id": c.ID, "rq": 0, "what": "", "n": b2i(err != nil), "m": 0})
 	case "then":
 		x.mu.Lock()
 		call := x.calls[c.Rq]
@@ -220,7 +238,7 @@ func reqReplay(bfile, tfile string, maxInFlight int) {
 	wd := 10 * time.Second * slow
 	const maxReq = 4
 	for bi, b := range behaviours {
-		x := &reqWorld{w: w, calls: map[int]actor.RequestCall{}, enter: make(chan *reqHeld, 64)}
+		x := &reqWorld{w: w, calls: map[int]actor.RequestCall{}, enter: make(chan *reqHeld, 64), maxf: maxInFlight}
 		resps := make([]*responder, maxReq)
 		for i := 0; i < maxReq; i++ {
 			resps[i] = &responder{hold: make(chan struct{}), got: make(chan int, 4)}
@@ -489,8 +507,16 @@ func (stressRequester) PostStop(*actor.Context) error { return nil }
 func (r stressRequester) Receive(ctx *actor.ReceiveContext) {
 	x := r.x
 	switch m := ctx.Message().(type) {
-	case *Cmd: // ordinary traffic
+	case *Cmd: // ordinary traffic; some of it switches the default policy off and on again
 		x.w.Emit(map[string]any{"ev": "enter", "id": m.ID, "rq": 0, "what": "plain", "n": 0, "m": 0})
+		switch m.Op {
+		case "disable":
+			ctx.DisableReentrancy()
+			x.w.Emit(map[string]any{"ev": "disable", "id": m.ID, "rq": 0, "what": "", "n": 0, "m": 0})
+		case "enable":
+			err := ctx.EnableReentrancy(reentrancy.New(reentrancy.WithMode(reentrancy.AllowAll), reentrancy.WithMaxInFlight(x.maxf)))
+			x.w.Emit(map[string]any{"ev": "enable", "id": m.ID, "rq": 0, "what": "", "n": b2i(err != nil), "m": 0})
+		}
 		x.mu.Lock()
 		x.handled = append(x.handled, m.ID)
 		x.mu.Unlock()
@@ -564,7 +590,7 @@ func reqStress(histories int, seed int64, tfile string, maxInFlight int) {
 	wd := 20 * time.Second * slow
 	lateWaits := 0
 	for h := 0; h < histories; h++ {
-		x := &reqWorld{w: w, calls: map[int]actor.RequestCall{}, enter: make(chan *reqHeld, 1)}
+		x := &reqWorld{w: w, calls: map[int]actor.RequestCall{}, enter: make(chan *reqHeld, 1), maxf: maxInFlight}
 		x.free.Store(true)
 		var resp []*actor.PID
 		for i := 0; i < 3; i++ {
@@ -618,7 +644,13 @@ func reqStress(histories int, seed int64, tfile string, maxInFlight int) {
 			for k := rng.Intn(4); k > 0; k-- {
 				id++
 				w.Emit(map[string]any{"ev": "send", "id": id, "rq": 0, "what": "plain", "n": 0, "m": 0})
-				_ = actor.Tell(bg, rpid, &Cmd{ID: id, Op: "plain"})
+				op := "plain"
+				if flip := rng.Intn(5); flip == 0 {
+					op = "disable"
+				} else if flip == 1 {
+					op = "enable"
+				}
+				_ = actor.Tell(bg, rpid, &Cmd{ID: id, Op: op})
 			}
 			if rng.Intn(2) == 0 {
 				time.Sleep(time.Duration(rng.Intn(800)) * time.Microsecond)
